@@ -782,7 +782,11 @@ impl<'a, 'tcx> BodyFx<'a, 'tcx> {
                             .unwrap_or_else(|| format!("{}", f.index())),
                         _ => format!("{}", f.index()),
                     };
-                    J::obj(vec![("f", J::Num(f.index() as i128)), ("n", J::Str(name))])
+                    J::obj(vec![
+                        ("f", J::Num(f.index() as i128)),
+                        ("n", J::Str(name)),
+                        ("bt", J::Str(self.fx.tys(pty.ty))),
+                    ])
                 }
                 PlaceElem::Index(l) => J::obj(vec![("idx", J::Num(l.index() as i128))]),
                 PlaceElem::ConstantIndex { offset, from_end, .. } => {
